@@ -4,6 +4,7 @@ import (
 	"flag"
 	"fmt"
 	"math/rand"
+	"time"
 
 	"verifharness/sim"
 )
@@ -21,6 +22,7 @@ func main() {
 		panic(err)
 	}
 	tr.Sync = true
+	sim.Watchdog(180 * time.Second)
 	for i := 0; i < *n; i++ {
 		if *only >= 0 && i != *only {
 			continue
